@@ -85,7 +85,7 @@ pub fn minimise(cluster: &ClusterCfg, trace: &[Action], v: &Violation, budget_s:
             Action::Ping { .. } => 16,
             Action::ReportUnreachable { .. } => 17,
             Action::ReportSnapshot { .. } => 18,
-            Action::Compact { .. } | Action::StorageExercise { .. } => 19,
+            Action::Compact { .. } | Action::StorageExercise { .. } | Action::ConfExercise { .. } => 19,
             Action::SetKnob { .. } => 20,
             Action::StorageFault { .. } => 21,
             Action::EntriesFetched { .. } => 22,
@@ -118,6 +118,7 @@ pub fn minimise(cluster: &ClusterCfg, trace: &[Action], v: &Violation, budget_s:
             | Action::ReportSnapshot { n, .. }
             | Action::Compact { n, .. }
             | Action::StorageExercise { n, .. }
+            | Action::ConfExercise { n, .. }
             | Action::SetKnob { n, .. }
             | Action::StorageFault { n, .. }
             | Action::EntriesFetched { n }
@@ -161,6 +162,27 @@ pub fn minimise(cluster: &ClusterCfg, trace: &[Action], v: &Violation, budget_s:
             cand.truncate((nv.step as usize).min(cand.len()));
             cur = cand;
             cur_v = nv;
+        }
+    }
+    // ---- (kind, node) pairs: e.g. all ticks of one node, all deliveries to one node
+    {
+        let node_ids: Vec<u64> = cluster.nodes.keys().cloned().collect();
+        for kind in [1u8, 2, 5, 6, 8, 9] {
+            for nid in &node_ids {
+                if t0.elapsed().as_secs() >= budget_s {
+                    break;
+                }
+                let cand: Vec<Action> = cur.iter().filter(|a| !(kind_of(a) == kind && node_of(a) == Some(*nid))).cloned().collect();
+                if cand.len() == cur.len() {
+                    continue;
+                }
+                if let Some(nv) = test(cluster, &cand, v, focus) {
+                    let mut cand = cand;
+                    cand.truncate((nv.step as usize).min(cand.len()));
+                    cur = cand;
+                    cur_v = nv;
+                }
+            }
         }
     }
     let mut n = 2usize;
